@@ -73,6 +73,10 @@ CHECKS = {
          "Sound static analysis of structural necessary conditions: 77 functions of the arithmetic core, key generation and key derivation are syntactically the standard library's (modulo renaming), so they compute what it computes; constants agree by value; Verify accepts only behind the five RFC 8032 guards with the standard hash input; signing uses the standard hash inputs and output layout; the canonical-S test scans all 32 bytes against L-1. Does not decide the fork-specific ref10 scalar arithmetic (scMulAdd, scReduce, SetBytes, ModInverse) - the larger part of bit-compatibility - for which no reference exists in the sandbox.",
          "Trusts go/parser, this checker's AST matcher, go/ssa, the GOROOT source of the default toolchain as reference, the reviewed divergent list (printed in evidence).",
          "DESIGN.md §4 C14"),
+ "C03": ("range proving on SSA: linear obligations over symbolic atoms decided by Fourier-Motzkin entailment from dominating guards, SSA definitions, loop induction, reviewed post-/pre-condition tables and translated callee success facts; loop-shape and recursion checks; unchecked-read detection",
+         "Sound static analysis of a structural sufficient condition for 'no panic, termination, allocation proportional to input' inside pat-go code: every slice (hi <= len, not cap), index, make (bounded by a constant or an input length), non-constant division, slice-to-array conversion and callee precondition in every pat-go function reachable from the 36 peer-bytes entry points is proved (478 obligations on amd64; thorough repeats for 386 and arm64, where int is 32 bits); every cryptobyte read's result is used; all 15 loops match terminating shapes; no recursion; explicit panics are documented own-key preconditions; the ECDSA core is behind its range checks. Does not cover panics/allocation inside dependencies on well-typed input, nil caller pointers, or machine-word overflow of length arithmetic.",
+         "Trusts go/ssa, ranges.go (Fourier-Motzkin over rationals), the reviewed post-condition/precondition/positive-getter tables (printed in evidence), C14 identity for matched arithmetic functions; dependencies do not panic on well-typed arguments.",
+         "DESIGN.md §4 C03"),
 }
 PENDING_REASON = "check under construction in this round (see DESIGN.md §4 for the planned static rule); not claimed until the rule runs clean on the tree and fires on its seeded breakage"
 NOT_APPLICABLE = {}
